@@ -115,24 +115,26 @@ def run_check(mod, tier, seed, replay=None):
             broken.append("translator:%s (%s)" % (g, st.get("error", "")[:200]))
 
     # 2. build the property's theorems and the driver
-    b = lean.build([mod.PROPS_MODULE])
-    ths = [n for n, _ in lean.theorems_in(mod.PROPS_MODULE)]
+    modules = [mod.PROPS_MODULE] + list(getattr(mod, "EXTRA_PROPS_MODULES", []))
+    b = lean.build(modules)
+    ths = [n for m in modules for n, _ in lean.theorems_in(m)]
     discharged = []
     axioms = {}
     if b["ok"]:
-        ax = lean.print_axioms(mod.PROPS_MODULE, ths)
-        axioms = ax["axioms"]
+        axioms = {}
+        for m in modules:
+            axioms.update(lean.print_axioms(m, [n for n, _ in lean.theorems_in(m)])["axioms"])
         for n in ths:
             if n in axioms and set(axioms[n]) <= lean.ALLOWED_AXIOMS:
                 discharged.append(n)
             else:
                 broken.append("theorem:%s (axioms %s)" % (n, axioms.get(n, "unavailable")))
-        forb = lean.forbidden_tokens(mod.PROPS_MODULE)
+        forb = [x for m in modules for x in lean.forbidden_tokens(m)]
         if forb:
             broken.append("audit:forbidden tokens %s" % forb[:5])
             discharged = []
     else:
-        bad = lean.failing_theorems(mod.PROPS_MODULE, b["errors"])
+        bad = [x for m in modules for x in lean.failing_theorems(m, b["errors"])]
         if bad:
             broken += ["theorem:%s" % n for n in bad]
             # theorems after a failing one in the same file are not checked by Lean either way
@@ -145,7 +147,7 @@ def run_check(mod, tier, seed, replay=None):
         broken.append("build:driver %s" % (db["errors"][:1] or db["log"][-300:]))
 
     if tier == "thorough" and b["ok"] and getattr(mod, "LEANCHECKER", True):
-        rc, out, dt = lean.sh(["lake", "env", "leanchecker", mod.PROPS_MODULE], timeout=3000)
+        rc, out, dt = lean.sh(["lake", "env", "leanchecker"] + modules, timeout=3000)
         ctx.notes.append("leanchecker %s rc=%d (%.0fs)" % (mod.PROPS_MODULE, rc, dt))
         if rc != 0:
             broken.append("leanchecker:%s %s" % (mod.PROPS_MODULE, out[-300:]))
